@@ -567,15 +567,15 @@ Note2: that Reed-Solomon can correct up to 2*resilience_rate erasures (eg, null 
             # Main loop: process each ecc entry
             entry = 1 # to start the while loop
             bardisp = tqdm.tqdm(total=dbsize, file=ptee, leave=True, desc='DBREAD', unit='B', unit_scale=True) # display progress bar based on reading the database file (since we don't know how many files we will process beforehand nor how many total entries we have)
-            while entry:
+            while entry is not None:
 
                 # -- Read the next ecc entry (extract the raw string from the ecc file)
                 #if replication_rate == 1:
                 entry = get_next_entry(db, entrymarker, False)
                 if entry: bardisp.update(len(entry)) # update progress bar
 
-                # No entry? Then we finished because this is the end of file (stop condition)
-                if not entry: break
+                # No entry? Then we finished because this is the end of file (stop condition). Note: an empty entry (two consecutive entrymarkers, because an entry was corrupted or truncated) is not the end of file: it will just be skipped below, and we must go on with the next entries.
+                if entry is None: break
 
                 # -- Get position of current entry (for debugging purposes)
                 entry_pos = [db.tell(), db.tell()-len(entry)]
